@@ -381,6 +381,12 @@ def guard_coherence(fx, ck, name="G5b.guard-coherence", prefix=""):
                         if (t2[1].get("d") or "").endswith("Guard::<T>::guard") and len(t2[2]) >= 2 and t2[2][0][0] in ("c", "m") and t2[2][1][0] in ("c", "m"):
                             if ancestors(f, t2[2][0][1][0]) & own and ancestors(f, t2[2][1][1][0]) & src:
                                 rooted = True
+                        # a rooting helper: `guard_values(&frame_guard, &saved.registers)` - a local function handed the own guard and the values
+                        elif t2[1].get("local") and len(t2[2]) >= 2 and not (t2[1].get("d") or "").endswith(("::clone", "cheap_clone")):
+                            gi = [a for a in t2[2] if a[0] in ("c", "m") and "gc::Guard<" in fx.tys(f.locals[a[1][0]]) and ancestors(f, a[1][0]) & own]
+                            vi = [a for a in t2[2] if a[0] in ("c", "m") and a not in gi and ancestors(f, a[1][0]) & src]
+                            if gi and vi:
+                                rooted = True
                     fld = fields[i] if i < len(fields) else str(i)
                     ck.instance(name, "%s: %s.%s (register file) rooted through the aggregate's guard" % (p, s[2][1].get("p", "?").split("::")[-1], fld), F.short_span(s[3]), ok=rooted)
                     if not rooted:
